@@ -64,22 +64,6 @@ def resolveAsg (d : Dump) (a : DAsg) : Option (List RStmt) :=
 
 /-! ## views of a route -/
 
-structure St where
-  attrs : List Attr
-  nh : Option Addr
-  deriving DecidableEq, Repr
-
-/-- the fixed arguments of one evaluation -/
-structure Ctx where
-  src : Source
-  net : Addr
-  mask : Nat
-  rpki : Option RpkiSt
-  confed : Bool
-  localAddr : Addr
-  peerAddr : Addr
-  origNh : Option Addr
-
 def ctxOf (d : Dir) (r : Route) : Ctx :=
   match d with
   | .imp => ⟨r.src, r.net, r.mask, r.rpki, false, r.src.localAddr, r.src.remoteAddr, r.nh⟩
@@ -126,24 +110,6 @@ def pathLen : List Seg → Nat
 
 def communityStr (c : Nat) : String := s!"{c / 65536}:{c % 65536}"
 def largeStr (c : Nat × Nat × Nat) : String := s!"{c.1}:{c.2.1}:{c.2.2}"
-
-def u16 (a b : Nat) : Nat := a * 256 + b
-def u32 (a b c d : Nat) : Nat := a * 16777216 + b * 65536 + c * 256 + d
-
-/-- the textual form of an extended community (route target / site of origin in the three
-    administrator formats, encapsulation, origin validation state); others have none -/
-def extStr : Bytes → Option String
-  | [0, 2, a, b, c, d, e, f] => some s!"rt:{u16 a b}:{u32 c d e f}"
-  | [0, 3, a, b, c, d, e, f] => some s!"soo:{u16 a b}:{u32 c d e f}"
-  | [2, 2, a, b, c, d, e, f] => some s!"rt:{u32 a b c d}:{u16 e f}"
-  | [2, 3, a, b, c, d, e, f] => some s!"soo:{u32 a b c d}:{u16 e f}"
-  | [1, 2, a, b, c, d, e, f] => some s!"rt:{a}.{b}.{c}.{d}:{u16 e f}"
-  | [1, 3, a, b, c, d, e, f] => some s!"soo:{a}.{b}.{c}.{d}:{u16 e f}"
-  | [3, 12, _, _, _, _, e, f] => some s!"encap:{u16 e f}"
-  | [67, 0, _, _, _, _, _, 0] => some "validation:valid"
-  | [67, 0, _, _, _, _, _, 1] => some "validation:not-found"
-  | [67, 0, _, _, _, _, _, 2] => some "validation:invalid"
-  | _ => none
 
 def joinWith (sep : String) : List String → String
   | [] => ""
@@ -216,7 +182,7 @@ def setHolds (env : RegexEnv) (cfg : RefCfg) (cx : Ctx) (st : St) (k : SetKind) 
       let strs := (commsOf st.attrs).map communityStr
       optHolds o pats (fun p => strs.any (fun s => env.matches p s))
   | .ext, .strs pats =>
-      let strs := (extsOf st.attrs).filterMap extStr
+      let strs := (extsOf st.attrs).filterMap env.extStr
       optHolds o pats (fun p => strs.any (fun s => env.matches p s))
   | .large, .strs pats =>
       let strs := (largesOf st.attrs).map largeStr
